@@ -71,7 +71,8 @@ void LocID::deleteLink(std::string name, hid_t plist) {
 
 unsigned int LocID::referenceCount() const {
     H5O_info_t oInfo;
-    HErr res = H5Oget_info(hid, &oInfo);
+    // the reference count is part of the basic fields
+    HErr res = H5Oget_info2(hid, &oInfo, H5O_INFO_BASIC);
     res.check("LocID:referenceCount: Coud not get object info");
     return oInfo.rc;
 }
